@@ -303,7 +303,7 @@ def build_executor(ctx, tags="verif", name="arkexec"):
     # the typed wrappers are generated code; regenerate if missing
     gen = os.path.join(HARNESS, "arkx", "typed_gen.go")
     if not os.path.exists(gen):
-        subprocess.check_call([sys.executable, os.path.join(HARNESS, "gen", "gen.py"), "3", gen])
+        subprocess.check_call([sys.executable, os.path.join(HARNESS, "gen", "gen.py"), "12", gen])
     hdir = HARNESS
     if os.path.realpath(REPO) != "/repo":
         # a scratch copy of the repository (seed sweeps): build from a private copy of the harness
@@ -764,6 +764,10 @@ def attribute_by_ablation(ctx):
 def finish(ctx, level_text):
     if ctx.pid in ("C15", "C16") and ctx.violations:
         attribute_by_ablation(ctx)
+    # "ANY." classes (the world cannot be read through valid API calls any more) count for whichever property is checked
+    for v in ctx.violations:
+        if v["cls"].startswith("ANY."):
+            v["cls"] = ctx.pid + v["cls"][3:]
     own = [v for v in ctx.violations if v["cls"].startswith(ctx.pid + ".")]
     other = [v for v in ctx.violations if not v["cls"].startswith(ctx.pid + ".")]
     known = load_known()
